@@ -54,6 +54,14 @@ def semantic(f):
     return False
 
 
+def short_join(items, sep):
+    """Bounded rendering for signatures: long sequences keep their first three and last two items."""
+    items = list(items)
+    if len(items) > 8:
+        items = items[:3] + ["..(%d).." % (len(items) - 5)] + items[-2:]
+    return sep.join(items)
+
+
 class Member(object):
     """One delivery of the stream to a fresh agent."""
 
@@ -300,7 +308,7 @@ class FramingCtx(object):
         kinds = []
         for f in frames:
             kinds.append(base.classify_frame(f)[0] if not f.error else "bad_" + f.error[0])
-        cell = "%s/%s" % (state, "+".join(kinds) if kinds else "partial")
+        cell = "%s/%s" % (state, short_join(kinds, "+") if kinds else "partial")
         self.cells.add("%s/%s" % (state, kinds[-1] if kinds else "partial"))
         self.trace.append([state, kinds, len(rest) > 0])
         self.nontrivial = base_m.reached == {"OpenSent": "OPENSENT", "OpenConfirm": "OPENCONFIRM",
@@ -401,7 +409,7 @@ class FramingCtx(object):
         res = M.match_events_path(model, evs, toks, t)
         if res is None:
             exp = M.describe_expected(model, evs, t)
-            raise Violation("C04", "reference", "%s/got:%s" % (cell, ",".join(abs_tok(x) for x in toks) or "nothing"),
+            raise Violation("C04", "reference", "%s/got:%s" % (cell, short_join([abs_tok(x) for x in toks], ",") or "nothing"),
                             "stream %s in %s: reference deframer extracts %s; expected reaction %s; agent did %s"
                             % (stream.hex()[:120], state, [repr(f) for f in frames],
                                " then ".join(" | ".join("[" + ",".join(a) + "]" for a in e["allowed"]) for e in exp),
@@ -437,7 +445,7 @@ class FramingCtx(object):
             if len(tail) > 1 or (len(tail) == 1 and (optional_last is None or not ok(tail[0], optional_last))):
                 good = False
         if not good:
-            raise Violation("C04", "callbacks", "%s/expected:%s/got:%s" % (cell, n, ",".join(cbs) or "none"),
+            raise Violation("C04", "callbacks", "%s/expected:%s/got:%s" % (cell, n, short_join(cbs, ",") or "none"),
                             "in %s frames %s should be reported as %s (+ optionally %s for the closing frame); handler saw %s"
                             % (state, [repr(f) for f in frames], expect_exact, optional_last, cbs))
 
